@@ -13,7 +13,8 @@
 From Coq Require Import List Arith ZArith Bool Sorting.Permutation.
 Import ListNotations.
 From GM Require Import Base.Res Model.SystemRec Proofs.SystemRecScan Proofs.SystemRecDomain Proofs.SystemRecSort
-     Proofs.SystemRecLoad Proofs.SystemRecExact Proofs.SystemRecViews Proofs.SystemRecNoMatch Proofs.SystemRecExample.
+     Proofs.SystemRecLoad Proofs.SystemRecExact Proofs.SystemRecViews Proofs.SystemRecNoMatch Proofs.SystemRecCheck
+     Proofs.SystemRecFile Proofs.SystemRecFileExact Proofs.SystemRecExample.
 
 (* Loading the topologies of any duplicate-free list [order] of species present in the file, in that order:
    every topology is accepted and the system consists of exactly the instances of the loaded species, in file
@@ -31,6 +32,24 @@ Theorem C11_exact : forall (v : groview) (tops : list top) (pats : list (list na
              s_avail st = stream pats (loaded_of order) runs.
 Proof. exact exact_kinds. Qed.
 Print Assumptions C11_exact.
+
+(* The same on the file itself (Proofs/SystemRecFile.v).  [file_domain tops frs]: the file is [file_of tops frs], the
+   concatenation of maximal runs [FInst s m] of S m whole molecules of species s (residues as its topology describes
+   them, every species of [tops] present) and of other residues [FOther r]; the (resname, size) signature sets of the
+   species are pairwise disjoint and contain no signature of the other residues; residues of the file with equal
+   signature are equal (name and atom names).  Then SystemGro's view exists and, for every duplicate-free list of
+   species in every order, all topologies are accepted and the molecules are exactly [fexpected]: the molecules of the
+   loaded species, in file order, each with its residue range, each passing the atom-by-atom check. *)
+Theorem C11_exact_file : forall (tops : list top) (frs : list frun) (order : list nat) (ts : list top),
+  file_domain tops frs ->
+  NoDup order -> Forall (fun s => s < length tops) order ->
+  Forall2 (fun s t => nth_error tops s = Some t) order ts ->
+  exists v st, view_of (file_of tops frs) = Ok v /\
+               load_all v (sys_init v) ts = Ok st /\
+               instances st = Ok (fexpected tops (index_of order) frs 0) /\
+               sys_iter v st = Ok (fexpected tops (index_of order) frs 0).
+Proof. exact exact_file. Qed.
+Print Assumptions C11_exact_file.
 
 (* Two loading orders of the same species give the same molecules (species, residue range), in the same order *)
 Theorem C11_order_independent : forall (pats : list (list nat)) (o1 o2 : list nat) (runs : list run),
@@ -71,6 +90,15 @@ Theorem C11_no_pattern : forall (v : groview) (st : sys) (t : top) (e : err),
 Proof. exact no_pattern. Qed.
 Print Assumptions C11_no_pattern.
 
+(* The hypothesis [domain] is decidable: the boolean checker the correspondence evaluates on every generated
+   in-domain file (ground truth of the generator -> runs; kinds and patterns read off the model's view of the file)
+   is sound, so C11_exact applies to each of those files by computation. *)
+Theorem C11_domain_check_sound : forall (file : list residue) (tops : list top) (hs : list hrun),
+  domain_check_truth file tops hs = true ->
+  exists v pats runs, view_of file = Ok v /\ domain v tops pats runs.
+Proof. exact domain_check_truth_sound. Qed.
+Print Assumptions C11_domain_check_sound.
+
 (* non-vacuity: the file C C D D D W A (C = residues P,Q,P: self-overlapping; D = two identical residues, three
    adjacent instances) with the view computed by the model of SystemGro satisfies [domain] *)
 Example C11_nonvacuous_domain : domain ex_view ex_tops ex_pats ex_runs.
@@ -78,6 +106,8 @@ Proof. exact ex_domain. Qed.
 Example C11_nonvacuous_order : NoDup [2; 0; 1] /\ Forall (fun s => present s ex_runs) [2; 0; 1] /\
   Forall2 (fun s t => nth_error ex_tops s = Some t) [2; 0; 1] [topD; topA; topC].
 Proof. exact ex_order. Qed.
+Example C11_nonvacuous_file_domain : file_domain ex_tops ex_frs /\ file_of ex_tops ex_frs = ex_file.
+Proof. exact (conj ex_file_domain ex_file_of). Qed.
 Example C11_nonvacuous_result :
   by_species [2; 0; 1] (expected ex_pats (index_of [2; 0; 1]) ex_runs 0) =
   [(1, 0, 3); (1, 3, 6); (2, 6, 8); (2, 8, 10); (2, 10, 12); (0, 13, 14)].
